@@ -456,9 +456,11 @@ pub struct Exec {
     pub flushed: bool,
     pub crashed_pairs: HashSet<(Scru128Id, String)>,
     pub plan_follower: bool,
+    /// every accepted append in order (stored and ephemeral), for stream followers of other engines
+    pub accepted_log: Vec<Frame>,
 }
 
-fn fresh_id(ts: u64, salt: u64) -> Scru128Id {
+pub fn fresh_id(ts: u64, salt: u64) -> Scru128Id {
     let mut r = Rng::new(salt);
     Scru128Id::from_fields(ts & 0xFFFF_FFFF_FFFF, (r.next_u32() & 0xFF_FFFF), (r.next_u32() & 0xFF_FFFF), r.next_u32())
 }
@@ -483,6 +485,7 @@ impl Exec {
             flushed: false,
             crashed_pairs: HashSet::new(),
             plan_follower: follower,
+            accepted_log: Vec::new(),
         };
         if follower {
             e.attach_follower()?;
@@ -490,7 +493,7 @@ impl Exec {
         Ok(e)
     }
 
-    fn store(&self) -> &Store {
+    pub fn store(&self) -> &Store {
         self.store.as_ref().unwrap()
     }
 
@@ -513,7 +516,7 @@ impl Exec {
         }
     }
 
-    fn drain_follower(&mut self, what: &str) -> R<()> {
+    pub fn drain_follower(&mut self, what: &str) -> R<()> {
         if self.follower_rx.is_none() {
             return Ok(());
         }
@@ -546,7 +549,7 @@ impl Exec {
         Ok(())
     }
 
-    fn ctx(&self, c: &CtxRef) -> Scru128Id {
+    pub fn ctx(&self, c: &CtxRef) -> Scru128Id {
         match c {
             CtxRef::Zero => ZERO_CONTEXT,
             CtxRef::Reg(k) => {
@@ -567,7 +570,7 @@ impl Exec {
         }
     }
 
-    fn idref(&self, r: &IdRef) -> Scru128Id {
+    pub fn idref(&self, r: &IdRef) -> Scru128Id {
         match r {
             IdRef::Nth(k) => {
                 if self.issued.is_empty() {
@@ -589,7 +592,7 @@ impl Exec {
         }
     }
 
-    fn issue(&mut self, id: Scru128Id) {
+    pub fn issue(&mut self, id: Scru128Id) {
         if !self.issued.contains(&id) {
             self.issued.push(id);
         }
@@ -641,19 +644,7 @@ impl Exec {
                         );
                     }
                 }
-                if topic == "xs.context" {
-                    self.reg.push(f.id);
-                    self.w.probe("ctx:registered");
-                }
-                if matches!(f.ttl, Some(TTL::Time(_))) {
-                    self.time_frames.push(f.id);
-                }
-                self.issue(f.id);
-                self.model.accept_append(&f);
-                self.follower_expect.push(f.clone());
-                if self.flushed {
-                    self.w.probe("layout:append-after-flush");
-                }
+                self.note_accepted(&f);
                 self.drain_follower(what)?;
                 Ok(Some(f))
             }
@@ -678,6 +669,38 @@ impl Exec {
         }
     }
 
+    /// Bookkeeping for an append the store accepted (through any entry point).
+    pub fn note_accepted(&mut self, f: &Frame) {
+        if f.topic == "xs.context" && f.context_id == ZERO_CONTEXT {
+            self.reg.push(f.id);
+            self.w.probe("ctx:registered");
+        }
+        if matches!(f.ttl, Some(TTL::Time(_))) {
+            self.time_frames.push(f.id);
+        }
+        self.issue(f.id);
+        self.model.accept_append(f);
+        self.accepted_log.push(f.clone());
+        self.follower_expect.push(f.clone());
+        if self.flushed {
+            self.w.probe("layout:append-after-flush");
+        }
+    }
+
+    /// Bookkeeping for an import the store accepted.
+    pub fn note_imported(&mut self, f: &Frame) {
+        if f.context_id == ZERO_CONTEXT && f.topic == "xs.context" && !self.reg.contains(&f.id) {
+            self.reg.push(f.id);
+            self.w.probe("ctx:imported-registration");
+        }
+        if matches!(f.ttl, Some(TTL::Time(_))) && !self.time_frames.contains(&f.id) {
+            self.time_frames.push(f.id);
+        }
+        self.issue(f.id);
+        self.model.accept_import(f);
+        self.w.probe("import:ok");
+    }
+
     fn do_import(&mut self, what: &str, f: Frame) -> R<()> {
         let has_nul = f.topic.as_bytes().contains(&0);
         let res = self.store().insert_frame(&f);
@@ -689,16 +712,7 @@ impl Exec {
                         format!("{}: import of a frame with a NUL topic succeeded: {}", what, fmt_frame(&f)),
                     );
                 }
-                if f.context_id == ZERO_CONTEXT && f.topic == "xs.context" && !self.reg.contains(&f.id) {
-                    self.reg.push(f.id);
-                    self.w.probe("ctx:imported-registration");
-                }
-                if matches!(f.ttl, Some(TTL::Time(_))) && !self.time_frames.contains(&f.id) {
-                    self.time_frames.push(f.id);
-                }
-                self.issue(f.id);
-                self.model.accept_import(&f);
-                self.w.probe("import:ok");
+                self.note_imported(&f);
                 self.drain_follower(what)?;
                 Ok(())
             }
@@ -731,7 +745,7 @@ impl Exec {
         Ok(false)
     }
 
-    fn gc_drain(&mut self) -> R<()> {
+    pub fn gc_drain(&mut self) -> R<()> {
         let n = self.w.run_kind_until_idle("gc", 100_000)?;
         if n > 0 {
             self.w.probe("gc:drain-nonempty");
